@@ -107,6 +107,8 @@ Record link := Lk {
   l_qlast : Z                 (* quality_cache.last_calculated_ms *)
 }.
 
+Arguments Lk _ _ _%Z _%Z _%Z _ _%Z _%Z _%Z _ _ _%Z _%float _%float _%float _%Z _%Z _%Z _%Z _ _ _%Z _%Z _%Z _%Z _%float _%Z.
+
 (** the fields [select_connection_idx] may write *)
 Record hid := Hd {
   h_timeout : Z; h_gated : bool; h_pulled : bool; h_pulls : Z; h_latched : Z;
